@@ -15,20 +15,31 @@ open Reduino.Lang Reduino.Lang.Promote
 theorem promote_order_independent (parent : List String) (bs bs' : List (List String))
     (hlen : bs.length = bs'.length) (h : ∀ i (h1 : i < bs.length) (h2 : i < bs'.length), (bs[i]).Perm (bs'[i])) :
     promote sorted parent bs = promote sorted parent bs' := by
-  sorry
+  unfold promote
+  exact Reduino.Lemmas.C10.outer_sorted_congr parent bs bs' [] hlen h
 
 /-- the promoted names are exactly the new names not declared in the parent, each once -/
 theorem promote_spec (arrange : List String → List String) (parent : List String) (bs : List (List String))
     (harr : ∀ l, (arrange l).Perm l) :
     (promote arrange parent bs).Nodup ∧
     ∀ x, x ∈ promote arrange parent bs ↔ (x ∉ parent ∧ ∃ b ∈ bs, x ∈ b) := by
-  sorry
+  unfold promote
+  refine ⟨Reduino.Lemmas.C10.outer_nodup arrange parent bs [] List.nodup_nil, ?_⟩
+  intro x
+  rw [Reduino.Lemmas.C10.outer_mem arrange parent harr bs [] x]
+  simp only [List.not_mem_nil, false_or]
 
 /-- without sorting two listings of the same set give two different outputs (the defect fixed in /repo: F9) -/
 theorem promote_unsorted_counterexample :
     promote id [] [["a", "b"]] ≠ promote id [] [["b", "a"]] ∧
     promote sorted [] [["a", "b"]] = promote sorted [] [["b", "a"]] := by
-  sorry
+  refine ⟨by decide, ?_⟩
+  apply promote_order_independent
+  · rfl
+  · intro i h1 h2
+    simp only [List.length_cons, List.length_nil, Nat.zero_add, Nat.lt_one_iff] at h1
+    subst h1
+    exact List.Perm.swap "b" "a" []
 
 /-- the model of the transpiler has no hidden state: translating a program twice, or after any other programs,
     gives the same result -/
